@@ -1147,6 +1147,27 @@ func ruleBodyState(p *Program, r *Reporter) {
 						}
 					}
 				}
+				// … or it is handed the compilation of the body as a function
+				// literal and runs it between setting the state and putting it back
+				if body == nil {
+					for k, arg := range c.Call.Args {
+						mc, ok := arg.(*ssa.MakeClosure)
+						if !ok || k >= len(h.Params) {
+							continue
+						}
+						lit, ok := mc.Fn.(*ssa.Function)
+						if !ok || len(callsTo(lit, fn)) == 0 {
+							continue
+						}
+						for _, hb := range h.Blocks {
+							for _, hi := range hb.Instrs {
+								if dc, ok := hi.(*ssa.Call); ok && dc.Call.Value == ssa.Value(h.Params[k]) && body == nil {
+									body, bodyFn, outer = dc, h, c
+								}
+							}
+						}
+					}
+				}
 			}
 		}
 	}
